@@ -131,6 +131,50 @@ def rule_fields(prog, rep):
         raise AnchorError("only %d struct printers destructure Self" % n)
 
 
+def rule_order(prog, rep):
+    """C08.ORDER: each struct printer writes the fields of its node in the order in which the
+    grammar has them - which is the order in which the AST struct declares them (description,
+    name, arguments / type, default value, directives, body).  `$v: Int @d = 1` for
+    `$v: Int = 1 @d` does not re-parse."""
+    rep.floor("C08.ORDER", 15)
+    for f in _struct_printers(prog):
+        hb = prog.hir_body(f)
+        sc = Scope(hb)
+        short = f.name.split("impl apollo_compiler::")[-1].replace(">::serialize_impl", "")
+        lets = [s for s in hb["body"].get("stmts", []) if s.get("k") == "slet" and s["pat"].get("k") == "struct" and sc.key(s.get("init", {})) == "param:self"]
+        if not lets:
+            continue
+        m = re.search(r"impl (apollo_compiler::[\w:]+)>::serialize_impl$", f.name)
+        if not m:
+            continue
+        try:
+            adt = prog.adt("^" + re.escape(m.group(1)) + "$")
+        except Exception:
+            continue
+        decl = [fl[0] for v in adt["variants"] for fl in v["fields"]]
+        bound = {p["id"]: fname for fname, p in lets[0]["pat"]["fields"] if p.get("k") == "bind"}
+        first = {}
+        pos = 0
+        skip = set(id(x) for x in walk(lets[0]))
+        for x in walk(hb["body"]):
+            pos += 1
+            if id(x) in skip:
+                continue
+            if x.get("k") == "path" and x.get("res") and x["res"][0] == "local":
+                c = sc.canon(x["res"][2])
+                if c in bound and bound[c] not in first:
+                    first[bound[c]] = pos
+        seq = [n for n in decl if n in first]
+        bad = [(a, b) for a, b in zip(seq, seq[1:]) if first[a] > first[b]]
+        rep.obligation(not bad)
+        if bad:
+            a, b = bad[0]
+            rep.finding("C08.ORDER", f.name, "order:%s:%s" % (a, b),
+                        "%s writes `%s` before `%s`, but the grammar (and the struct) has %s first: the serialized text does not parse back" % (short, b, a, a), f.loc())
+        else:
+            rep.instance("C08.ORDER", "%s: fields are written in declaration order (%s)" % (short, ", ".join(seq)))
+
+
 VALUE_WANT = {
     "Null": r'::write\(&arg2, &\*const:"null"\)',
     "Enum": r"::write\(&arg2, &\*<Name as Deref>::deref\(&arg1\.as:Enum\.0\)",
@@ -355,6 +399,7 @@ def rule_separators(prog, rep):
 
 def run(prog, rep):
     rule_fields(prog, rep)
+    rule_order(prog, rep)
     rule_dispatch(prog, rep)
     rule_shorthand(prog, rep)
     rule_emptyflag(prog, rep)
